@@ -130,7 +130,8 @@ func (p *progFacts) fateOf(v ssa.Value) errFate {
 			case *ssa.ChangeType:
 				follow(x)
 			case *ssa.BinOp:
-				if x.Op == token.NEQ || x.Op == token.EQL {
+				isNilConst := func(v ssa.Value) bool { k, ok := v.(*ssa.Const); return ok && k.IsNil() }
+				if (x.Op == token.NEQ || x.Op == token.EQL) && (isNilConst(x.X) || isNilConst(x.Y)) { // compared with nil (a comparison with one particular error says nothing about the others)
 					fate.checked = true
 					// `if err != nil { return otherErr }` / `{ cErr <- otherErr }` also reports the failure
 					for _, br := range *x.Referrers() {
@@ -152,11 +153,21 @@ func (p *progFacts) fateOf(v ssa.Value) errFate {
 					continue
 				}
 				if fa, ok := x.Addr.(*ssa.FieldAddr); ok {
-					// the error is kept in a field (a writer that remembers its first failure): it is reported where that
-					// field is read and returned or sent - by any function of the repository (field-sensitive, object-
-					// insensitive, like the rest of this rule)
-					for _, ld := range p.fieldLoads[fieldKeyOf(fa)] {
-						follow(ld)
+					if la, isLocal := fa.X.(*ssa.Alloc); isLocal && !la.Heap {
+						// a field of a LOCAL struct value (the copy a method with a value receiver works on): the error lives and
+						// dies with this call unless this function reads it back
+						for _, ld := range p.fieldLoads[fieldKeyOf(fa)] {
+							if lfa, ok := ld.X.(*ssa.FieldAddr); ok && lfa.X == la {
+								follow(ld)
+							}
+						}
+					} else {
+						// the error is kept in a field of an object that outlives the call (a writer that remembers its first
+						// failure): it is reported where that field is read and returned or sent - by any function of the
+						// repository (field-sensitive, object-insensitive, like the rest of this rule)
+						for _, ld := range p.fieldLoads[fieldKeyOf(fa)] {
+							follow(ld)
+						}
 					}
 				}
 				if a, ok := x.Addr.(*ssa.Alloc); ok {
@@ -610,6 +621,9 @@ func fieldKeyOf(fa *ssa.FieldAddr) string {
 // same field, on the side where it is nil - so that a write that failed is never followed by another write whose result
 // would overwrite the error kept.
 func stickyErrorField(fn *ssa.Function, field *ssa.FieldAddr, write *ssa.BasicBlock) bool {
+	if la, isLocal := field.X.(*ssa.Alloc); isLocal && !la.Heap {
+		return false // the copy of a value receiver: nothing is kept beyond this call
+	}
 	key := fieldKeyOf(field)
 	for _, b := range fn.Blocks {
 		if len(b.Instrs) == 0 || len(b.Succs) != 2 {
